@@ -31,31 +31,47 @@ def _coq_str(s):
 
 
 def bom_table():
-    fn = _find_func(_parse("basana/core/event_sources/csv.py"), "open_file_with_detected_encoding")
-    for node in ast.walk(fn):
+    """the BOM table of core/event_sources/csv.py: the one list / tuple literal of (codecs.BOM_*, "encoding") pairs of the
+    module (inside the function that opens the file or at module level), which must be scanned by a loop that stops at the
+    first entry the file's first bytes start with"""
+    tree = _parse("basana/core/event_sources/csv.py")
+    tables = []
+    for node in ast.walk(tree):
         if isinstance(node, ast.Assign) and len(node.targets) == 1 and isinstance(node.targets[0], ast.Name) \
-                and node.targets[0].id == "boms":
-            if not isinstance(node.value, ast.List):
-                raise TranslateError("boms is not a list literal")
-            out = []
-            for elt in node.value.elts:
-                if not (isinstance(elt, ast.Tuple) and len(elt.elts) == 2):
-                    raise TranslateError("boms entry is not a pair")
-                b, e = elt.elts
-                if not (isinstance(b, ast.Attribute) and isinstance(b.value, ast.Name) and b.value.id == "codecs"
-                        and b.attr.startswith("BOM")):
-                    raise TranslateError("bom is not a codecs.BOM_* constant")
-                if not (isinstance(e, ast.Constant) and isinstance(e.value, str)):
-                    raise TranslateError("encoding is not a string literal")
-                if e.value not in ENC_IDS:
-                    raise TranslateError(f"unknown encoding {e.value}")
-                out.append((list(getattr(codecs, b.attr)), ENC_IDS[e.value], e.value))
-            # the loop that uses the table must be the first-match prefix scan
-            src = ast.unparse(fn)
-            if "raw.startswith(bom)" not in src or "break" not in src:
-                raise TranslateError("the BOM table is not used by a first-match prefix scan any more")
-            return out
-    raise TranslateError("boms table not found")
+                and isinstance(node.value, (ast.List, ast.Tuple)) and node.value.elts \
+                and all(isinstance(e, ast.Tuple) and len(e.elts) == 2 and isinstance(e.elts[0], ast.Attribute)
+                        and isinstance(e.elts[0].value, ast.Name) and e.elts[0].value.id == "codecs"
+                        and e.elts[0].attr.startswith("BOM") for e in node.value.elts):
+            tables.append(node)
+    if len(tables) != 1:
+        raise TranslateError(f"expected exactly one BOM table in csv.py, found {len(tables)}")
+    node = tables[0]
+    name = node.targets[0].id
+    out = []
+    for elt in node.value.elts:
+        b, e = elt.elts
+        if not (isinstance(e, ast.Constant) and isinstance(e.value, str)):
+            raise TranslateError("encoding is not a string literal")
+        if e.value not in ENC_IDS:
+            raise TranslateError(f"unknown encoding {e.value}")
+        out.append((list(getattr(codecs, b.attr)), ENC_IDS[e.value], e.value))
+    # the loop that uses the table must be the first-match prefix scan
+    scans = 0
+    for loop in ast.walk(tree):
+        if not (isinstance(loop, ast.For) and isinstance(loop.iter, ast.Name) and loop.iter.id == name
+                and isinstance(loop.target, ast.Tuple) and len(loop.target.elts) == 2
+                and isinstance(loop.target.elts[0], ast.Name)):
+            continue
+        var = loop.target.elts[0].id
+        for st in loop.body:
+            if isinstance(st, ast.If) and isinstance(st.test, ast.Call) and isinstance(st.test.func, ast.Attribute) \
+                    and st.test.func.attr == "startswith" and len(st.test.args) == 1 \
+                    and isinstance(st.test.args[0], ast.Name) and st.test.args[0].id == var \
+                    and any(isinstance(x, (ast.Break, ast.Return)) for x in st.body):
+                scans += 1
+    if scans != 1:
+        raise TranslateError("the BOM table is not used by exactly one first-match prefix scan any more")
+    return out
 
 
 def dict_table(rel, func, expect_key_type=str):
@@ -81,14 +97,34 @@ def dict_table(rel, func, expect_key_type=str):
 
 
 def render():
+    """(text, errors): errors maps the property whose theorems use a table to what went wrong translating it; a table
+    that cannot be translated keeps its previous text, so that the theorems of the other properties still build"""
+    path = os.path.join(common.COQ, "gen", "Tables.v")
+    previous = open(path).read() if os.path.exists(path) else ""
+
+    def previous_block(marker):
+        i = previous.find(marker)
+        if i < 0:
+            return None
+        j = previous.find("\n\n", i)
+        return previous[i:j if j >= 0 else len(previous)].split("\n")
+    errors = {}
     lines = ["(* GENERATED by harness/translate_tables.py from /repo -- do not edit *)",
              "From Coq Require Import NArith List String Bool.", "Import ListNotations.", "Open Scope string_scope.", ""]
-    boms = bom_table()
-    lines.append("(* core/event_sources/csv.py: open_file_with_detected_encoding, in source order *)")
-    lines.append("Definition bom_table : list (list N * nat) := [")
-    lines.append(";\n".join("  ([" + "; ".join(f"{b}%N" for b in bs) + f"], {eid}%nat) (* {name} *)"
-                            for bs, eid, name in boms))
-    lines.append("].")
+    marker = "(* core/event_sources/csv.py: open_file_with_detected_encoding, in source order *)"
+    try:
+        boms = bom_table()
+        lines.append(marker)
+        lines.append("Definition bom_table : list (list N * nat) := [")
+        lines.append(";\n".join("  ([" + "; ".join(f"{b}%N" for b in bs) + f"], {eid}%nat) (* {name} *)"
+                                for bs, eid, name in boms))
+        lines.append("].")
+    except (TranslateError, SyntaxError, OSError) as e:
+        errors["C19"] = f"{type(e).__name__}: {e}"
+        blk = previous_block(marker)
+        if blk is None:
+            raise
+        lines += blk
     lines.append("")
     for name, rel, func, kt in [
         ("binance_order_status_is_open", "basana/external/binance/helpers.py", "order_status_is_open", str),
@@ -97,35 +133,41 @@ def render():
         ("binance_side_to_operation", "basana/external/binance/helpers.py", "side_to_order_operation", str),
         ("bitstamp_order_type_to_operation", "basana/external/bitstamp/helpers.py", "order_type_to_order_operation", int),
     ]:
-        tbl = dict_table(rel, func, kt)
-        lines.append(f"(* {rel}: {func} *)")
+        marker = f"(* {rel}: {func} *)"
 
         def lit(x):
             if isinstance(x, bool):
                 return '"true"' if x else '"false"'
-            if isinstance(x, int):
-                return _coq_str(str(x))
             return _coq_str(str(x))
-        lines.append(f"Definition {name} : list (string * string) := [")
-        lines.append(";\n".join(f"  ({lit(k)}, {lit(v)})" for k, v in tbl))
-        lines.append("].")
+        try:
+            tbl = dict_table(rel, func, kt)
+            lines.append(marker)
+            lines.append(f"Definition {name} : list (string * string) := [")
+            lines.append(";\n".join(f"  ({lit(k)}, {lit(v)})" for k, v in tbl))
+            lines.append("].")
+        except (TranslateError, SyntaxError, OSError) as e:
+            errors.setdefault("C17", f"{type(e).__name__}: {e}")
+            blk = previous_block(marker)
+            if blk is None:
+                raise
+            lines += blk
         lines.append("")
-    return "\n".join(lines) + "\n"
+    return "\n".join(lines) + "\n", errors
 
 
 def regenerate():
-    """writes coq/gen/Tables.v if its content changed; returns (changed?, error or None)"""
+    """writes coq/gen/Tables.v if its content changed; returns (changed?, {property: error})"""
     path = os.path.join(common.COQ, "gen", "Tables.v")
     try:
-        txt = render()
+        txt, errors = render()
     except (TranslateError, SyntaxError, OSError) as e:
-        return False, f"{type(e).__name__}: {e}"
+        return False, {"*": f"{type(e).__name__}: {e}"}
     old = open(path).read() if os.path.exists(path) else None
     if old != txt:
         with open(path, "w") as f:
             f.write(txt)
-        return True, None
-    return False, None
+        return True, errors
+    return False, errors
 
 
 if __name__ == "__main__":
